@@ -41,7 +41,7 @@ def case_full(draw, tier):
     if tier == "thorough" and draw(st.integers(0, 19)) == 19:
         N = draw(st.integers(70000, 300000))          # a few records with segment lengths beyond 2^16
     mode = draw(st.sampled_from(["auto", "csd", "csd"]))
-    cfg = draw(gens.analysis_config(N, Jmax=120 if N < 70000 else 40, Kmax=60 if N < 70000 else 8))
+    cfg = draw(gens.analysis_config(N, Jmax=120 if N < 70000 else 40, Kmax=60 if N < 70000 else 8, custom=True))
     case = {"N": N, "mode": mode, "cfg": cfg, "fs": draw(st.sampled_from([1.0, 2.0, 1000.0, 0.37, 2.0 ** -6])),
             "rec": draw(gens.pair(N, rel_kinds=REL_W) if mode == "csd" else gens.record(N))}
     return case
@@ -142,7 +142,7 @@ def oracle_full(case):
     import speckit
     win = gens.resolve_window(cfg["win"])[0]
     kw = dict(olap=cfg["olap"], bmin=cfg["bmin"], Lmin=cfg["Lmin"], Jdes=cfg["Jdes"], Kdes=cfg["Kdes"], order=cfg["order"],
-              psll=cfg["psll"], win=win, scheduler=cfg["scheduler"], backend=cfg["backend"])
+              psll=cfg["psll"], win=win, scheduler=gens.scheduler_arg(cfg), backend=cfg["backend"])
     for wname in ("compute_spectrum", "lpsd"):
         r2 = getattr(speckit, wname)(data, fs, **kw)
         if len(r2.f) != nf or any(not np.array_equal(np.asarray(getattr(r2, k)), np.asarray(getattr(res, k))) for k in ("f", "L", "XX", "YY", "XY", "M2")):
@@ -153,6 +153,8 @@ def oracle_full(case):
               "cell:%s,o=%d" % (cfg["backend"], cfg["order"])]
     if nL >= 3:
         labels.append("distinctL>=3")
+    if cfg.get("sched_as") == "custom":
+        labels.append("full:custom-scheduler:" + cfg["custom"]["style"])
     return Res(viol, nontrivial, labels, {"worst_err_in_eps_L_g_S": worst})
 
 
